@@ -438,11 +438,11 @@ type c15fail struct {
 
 // exploreC15 enumerates all programs of length exactly L (every prefix is checked on the way,
 // since each op is compared with the model when it runs).
-func exploreC15(parent string, alpha []c15op, L int, onFail func(c15fail)) (programs, ops int64) {
+func exploreC15(parent string, alpha []c15op, L int, onFail func(c15fail)) (programs, ops, prefixes, nontrivial int64) {
 	A := len(alpha)
 	var wg sync.WaitGroup
 	sem := make(chan struct{}, runtime.NumCPU())
-	var np, no int64
+	var np, no, nn, nt int64
 	for first := 0; first < A; first++ {
 		wg.Add(1)
 		sem <- struct{}{}
@@ -452,13 +452,17 @@ func exploreC15(parent string, alpha []c15op, L int, onFail func(c15fail)) (prog
 			prog := make([]int, L)
 			prog[0] = first
 			var rec func(pos int)
-			var lp, lo int64
+			var lp, lo, ln, lt int64
 			rec = func(pos int) {
+				ln++ // an enabled prefix = one state of the (unmerged) program tree
 				if pos == L {
 					what, ran := runC15Program(parent, alpha, prog)
 					if ran {
 						lp++
 						lo += int64(L)
+						if c15nontrivial(alpha, prog) {
+							lt++
+						}
 					}
 					if what != "" {
 						var names []string
@@ -483,10 +487,28 @@ func exploreC15(parent string, alpha []c15op, L int, onFail func(c15fail)) (prog
 			}
 			atomic.AddInt64(&np, lp)
 			atomic.AddInt64(&no, lo)
+			atomic.AddInt64(&nn, ln)
+			atomic.AddInt64(&nt, lt)
 		}(first)
 	}
 	wg.Wait()
-	return np, no
+	return np, no, nn, nt
+}
+
+// c15nontrivial: the program observes (get/has/iteration) after it has mutated (set/delete).
+func c15nontrivial(alpha []c15op, prog []int) bool {
+	mutated := false
+	for _, i := range prog {
+		switch alpha[i].kind {
+		case "set", "del":
+			mutated = true
+		case "get", "has", "iter", "step", "open":
+			if mutated {
+				return true
+			}
+		}
+	}
+	return false
 }
 
 // c15prefixEnabled evaluates the usage contract on a prefix without touching a store.
